@@ -233,7 +233,7 @@ def standin_results_roundtrip(tier, seed):
     cases, fails = 0, []
     for reps in list(range(0, 21)) + [63, 64, 65]:
         for instances in (1, 2, 3):
-            q = [cirq.GridQubit(0, i) for i in range(3)]
+            q = rng.choice([[cirq.GridQubit(0, i) for i in range(3)], [cirq.GridQubit(0, i) for i in range(3)], cirq.LineQubit.range(3), [cirq.GridQubit(-1, 2), cirq.LineQubit(-1), cirq.NamedQubit("q")]])
             order = rng.sample(q, 3)
             recs = np.array([[[rng.randrange(2) for _ in range(3)] for _ in range(instances)] for _ in range(reps)], dtype=np.uint8).reshape(reps, instances, 3)
             r = cirq.ResultDict(params=cirq.ParamResolver({"a": 0.5}), records={"k": recs})
@@ -242,7 +242,7 @@ def standin_results_roundtrip(tier, seed):
                 proto = v2.results_to_proto([[r]], mi)
                 back = v2.results_from_proto(proto, mi)[0][0]
             except Exception as ex:
-                fails.append(dict(args=dict(repetitions=reps, instances=instances), failed="results-raised", clause=f"{ex!r}"))
+                fails.append(dict(args=dict(repetitions=reps, instances=instances, order=repr(order)), failed="results-raised", clause=f"{ex!r}"))
                 continue
             cases += 1
             # the message itself, decoded by hand: every per-qubit entry holds the bits of THAT qubit (bit i of byte i // 8, least significant first)
@@ -262,7 +262,7 @@ def standin_results_roundtrip(tier, seed):
                 fails.append(dict(args=dict(repetitions=reps, instances=instances, order=repr(order)), failed="results-roundtrip",
                                   clause="results_from_proto(results_to_proto(r)) != r"))
     return dict(function="cirq-google/cirq_google/api/v2/results.py:results_to_proto/results_from_proto", case="results-roundtrip",
-                bound="repetitions 0..20, 63, 64, 65 x instances 1..3 x permuted qubit order", cases=cases, distinct=cases, failures=len(fails), exhaustive=False, _fails=fails[:3])
+                bound="repetitions 0..20, 63, 64, 65 x instances 1..3 x permuted qubit order x grid / line / mixed qubit types", cases=cases, distinct=cases, failures=len(fails), exhaustive=False, _fails=fails[:3])
 standin_results_roundtrip.prop = "C16"
 
 
